@@ -71,6 +71,10 @@ confirmed = suite["ok"] and suite["failed"] == 0 and with_patch["failed"] > 0 an
 # run the check against the change
 checks = {}
 if confirmed:
+    # one change at a time in /repo (several seedchecks may confirm in their worktrees at once): flock(2), as flock(1) takes it
+    import fcntl
+    lock = open("/tmp/seedcheck.lock", "w")
+    fcntl.flock(lock, fcntl.LOCK_EX)
     rc, o = sh("git -C /repo apply %s" % patch)
     assert rc == 0, o
     try:
@@ -88,6 +92,7 @@ if confirmed:
         sh("git -C /repo checkout -- .")
         sh("find /verif/replays -name '%s-*.json' -delete" % prop)
         sh("python3 /verif/tools/regen.py >/dev/null")
+        fcntl.flock(lock, fcntl.LOCK_UN)
 meta = json.load(open(os.path.join(sdir, "meta.json"))) if os.path.exists(os.path.join(sdir, "meta.json")) else {}
 meta.update({"property": prop, "confirmed_independently": confirmed, "confirmation_runs": ran, "check_result": checks,
              "caught": bool(checks.get("quick", {}).get("violation_lines")), "demo_location": ("demo.sh (run in a worktree)" if demo.endswith(".sh") else "%s/tests/seeded_demo.rs" % crate)})
